@@ -602,6 +602,35 @@ def check(run):
                        range_type="relative cp", range_x=[1e-3, 2e-3])
         sc.save(a4, 0, "mallory", "failed fit", expect="ValueError",
                 label="different-fit-all-nan")
+        # different fits of the stored curve with an EQUAL fit hash: the
+        # hash is computed before fitting from data, preprocessing and the
+        # hashed part of the settings -- it does not cover brute_step or a
+        # fit column replaced by the caller
+        a5 = fit_curve(load_curves(single)[0], **copy.deepcopy(FITS[0]))
+        a5["fit"] = np.array(a5["fit"], copy=True) * 1.01
+        if a5.fit_properties.get("hash") == a.fit_properties.get("hash"):
+            sc.save(a5, 1, "mallory", "edited column", expect="ValueError",
+                    label="different-fit-equal-hash")
+        m1b = []
+        for esteps, cpsteps in [(7, 9), (10, 13)]:
+            from nanite import model as nmodel
+            ps = nmodel.model_hertz_paraboloidal.get_parameter_defaults()
+            ps["E"].set(value=3e3, min=100, max=20e3,
+                        brute_step=(20e3 - 100) / esteps)
+            ps["contact_point"].set(value=0, min=-1e-6, max=1e-6,
+                                    brute_step=2e-6 / cpsteps)
+            ps["baseline"].set(value=0, vary=False)
+            m1b.append(fit_curve(load_curves(mapf)[3], model_key="hertz_para",
+                                 params_initial=ps, method="brute",
+                                 weight_cp=False))
+        if m1b[0].fit_properties.get("success") and \
+                m1b[1].fit_properties.get("success") and \
+                not np.allclose(m1b[0]["fit"], m1b[1]["fit"], rtol=1e-6,
+                                atol=0, equal_nan=True):
+            sc.save(m1b[0], 7, "alice", "coarse grid", expect=None,
+                    label="brute-grid-first")
+            sc.save(m1b[1], 1, "mallory", "fine grid", expect="ValueError",
+                    label="different-fit-brute-step")
         sc.save(m1, 8, "bob", "x", expect=None, label="new-other-enum")
         sc.save(m1, 8, "bob", "x", expect=None, label="identical-again")
         # --- a failure before every write call of a save
